@@ -1,5 +1,6 @@
 """Repository classes (real method bodies are executed), comprehensions, with/try, strings."""
 import ast
+import os
 
 import z3
 
@@ -248,6 +249,8 @@ def comprehension(ex, st, e, kind):
                         else:
                             # symbolic filter over a fixed-length sequence: path split
                             cond = z3.And([_b(c) for c in cs if not isinstance(c, bool)])
+                            if os.environ.get("PYVC_DEBUG_COMP"):
+                                print("COMP-FORK", ast.unparse(e)[:120])
                             sT = s2.fork("c")
                             sT.assume(cond)
                             if ex.feasible(sT):
